@@ -3,9 +3,9 @@
   re-casing the ASCII letters of a source text re-cases the token list and nothing else.
 
   * `CaseRel c c'`: the same character up to ASCII letter case (`asciiLowerChar c = asciiLowerChar c'`);
-  * `RC s s'`: texts related character by character; `RCA s s'`: moreover the three literal
-    apostrophe sequences `'n'`, `'s`, `'re` (which the lexer matches case-SENSITIVELY with
-    `scan_for_text` / `starts_with`) start at exactly the same places;
+  * `RC s s'`: texts related character by character (since the repair D18 the lexer matches the
+    literal sequences `'n'`, `'s`, `'re` up to ASCII case as well — `startsWithIgnoreAsciiCase` —
+    so no further condition on the two texts is needed);
   * `AsciiLaws`: what is needed of the Unicode tables on the 52 ASCII letters;
   * one relational lemma per function of Rrss/Lexer.lean (`LRel`: both runs end the same way, with
     related results), the induction along `matchLoop` / `lexLoop`.
@@ -316,82 +316,21 @@ theorem RC.isEmpty {s s' : Str} (h : RC s s') : s'.isEmpty = s.isEmpty := by
 theorem RC.eq_nil_iff {s s' : Str} (h : RC s s') : s' = [] ↔ s = [] := by
   cases h <;> simp
 
-/-- literal sequences of the lexer that do not tolerate re-casing: do `'n'`, `'s`, `'re` start here? -/
-def heads (t : Str) : Bool × Bool × Bool :=
-  ((stripPrefix? (str% "'n'") t).isSome, (stripPrefix? (str% "'s") t).isSome,
-   (stripPrefix? (str% "'re") t).isSome)
+/-- `char::to_ascii_lowercase` of the model is the `asciiLowerChar` of Thm/C15.lean -/
+theorem toAsciiLower_eq (c : Char) : toAsciiLower c = asciiLowerChar c := rfl
 
-/-- the same text up to ASCII letter case, with `'n'`, `'s`, `'re` (in exactly this case) starting
-    at the same places -/
-inductive RCA : Str → Str → Prop
-  | nil : RCA [] []
-  | cons {c c' s s'} : CaseRel c c' → heads (c :: s) = heads (c' :: s') → RCA s s' →
-      RCA (c :: s) (c' :: s')
-
-theorem RCA.rc {s s' : Str} (h : RCA s s') : RC s s' := by
-  induction h with
-  | nil => exact .nil
-  | cons h _ _ ih => exact .cons h ih
-
-theorem RCA.heads {s s' : Str} (h : RCA s s') : heads s' = heads s := by
-  cases h with
+/-- the ASCII-case-blind prefix test of `scan_for_text` / `find_word_start` does not see a
+    re-casing of the text -/
+theorem startsWithIgnoreAsciiCase_rc (text : Str) {t t' : Str} (h : RC t t') :
+    startsWithIgnoreAsciiCase text t' = startsWithIgnoreAsciiCase text t := by
+  induction text generalizing t t' with
   | nil => rfl
-  | cons _ h _ => exact h.symm
-
-theorem RCA.refl (s : Str) : RCA s s := by
-  induction s with
-  | nil => exact .nil
-  | cons c s ih => exact .cons (CaseRel.refl c) rfl ih
-
-theorem isSome_stripPrefix?_iff {d s : Str} : (stripPrefix? d s).isSome = true ↔ d <+: s := by
-  induction d generalizing s with
-  | nil => simp [stripPrefix?]
-  | cons x d ih =>
-    cases s with
-    | nil => simp [stripPrefix?]
-    | cons c s =>
-      simp only [stripPrefix?]
-      split
-      · next h => subst h; rw [ih]; simp [List.cons_prefix_cons]
-      · next h => simp [List.cons_prefix_cons, h]
-
-/-- from the model-independent formulation: same lower-case image, and each of the three literal
-    sequences is a prefix of corresponding suffixes of the two texts at the same time -/
-theorem rca_of_map {s s' : Str} (h : s.map asciiLowerChar = s'.map asciiLowerChar)
-    (ha : ∀ k, k < s.length → ∀ lit ∈ [str% "'n'", str% "'s", str% "'re"],
-      lit <+: s.drop k ↔ lit <+: s'.drop k) :
-    RCA s s' := by
-  induction s generalizing s' with
-  | nil => cases s' with
-    | nil => exact .nil
-    | cons c s' => simp at h
-  | cons c s ih =>
-    cases s' with
-    | nil => simp at h
-    | cons c' s' =>
-      simp only [List.map_cons, List.cons.injEq] at h
-      refine .cons h.1 ?_ (ih h.2 fun k hk => by
-        simpa using ha (k + 1) (by simpa using hk))
-      have h0 := ha 0 (by simp)
-      simp only [List.drop_zero] at h0
-      unfold heads
-      have e : ∀ lit ∈ [str% "'n'", str% "'s", str% "'re"],
-          (stripPrefix? lit (c :: s)).isSome = (stripPrefix? lit (c' :: s')).isSome := by
-        intro lit hl
-        rw [Bool.eq_iff_iff, isSome_stripPrefix?_iff, isSome_stripPrefix?_iff]
-        exact h0 lit hl
-      rw [e _ (by simp), e _ (by simp), e _ (by simp)]
-
-theorem startsWithNApos_eq (t : Str) : startsWithNApos t = (heads t).1 := by
-  show _ = (stripPrefix? (str% "'n'") t).isSome
-  unfold startsWithNApos
-  split
-  · simp [stripPrefix?]
-  · next hne =>
-    symm; rw [Bool.eq_false_iff]; intro hs
-    rw [isSome_stripPrefix?_iff] at hs
-    obtain ⟨r, hr⟩ := hs
-    exact hne r hr.symm
+  | cons d ds ih =>
+    cases h with
+    | nil => rfl
+    | cons hc ht =>
+      simp only [startsWithIgnoreAsciiCase, toAsciiLower_eq]
+      rw [show asciiLowerChar _ = asciiLowerChar _ from hc.symm, ih ht]
 
 /-! ### byte slicing -/
 
@@ -402,19 +341,6 @@ theorem dropBytes_rc {s s' : Str} (h : RC s s') (n : Nat) :
   | cons hc t ih =>
     cases n with
     | zero => simp only [dropBytes, ORel]; exact .cons hc t
-    | succ n =>
-      simp only [dropBytes, hc.utf8Size]
-      split
-      · exact ih _
-      · trivial
-
-theorem dropBytes_rca {s s' : Str} (h : RCA s s') (n : Nat) :
-    ORel RCA (dropBytes n s) (dropBytes n s') := by
-  induction h generalizing n with
-  | nil => cases n <;> simp [dropBytes, ORel]; exact .nil
-  | cons hc hh t ih =>
-    cases n with
-    | zero => simp only [dropBytes, ORel]; exact .cons hc hh t
     | succ n =>
       simp only [dropBytes, hc.utf8Size]
       split
@@ -474,9 +400,9 @@ theorem substr_to_end_none {s : Str} {lo : Nat} (h : dropBytes lo s = none) :
     substr s lo (ulen s) = none := by
   unfold substr; split <;> simp [h]
 
-theorem substr_to_end_rca {s s' : Str} (h : RCA s s') (lo : Nat) :
-    ORel RCA (substr s lo (ulen s)) (substr s' lo (ulen s')) := by
-  have h1 := dropBytes_rca h lo
+theorem substr_to_end_rc {s s' : Str} (h : RC s s') (lo : Nat) :
+    ORel RC (substr s lo (ulen s)) (substr s' lo (ulen s')) := by
+  have h1 := dropBytes_rc h lo
   cases h2 : dropBytes lo s with
   | none =>
     cases h3 : dropBytes lo s' with
@@ -722,8 +648,8 @@ structure ResRel (r r' : LexResult N) : Prop where
   staged : ORel TokRel r.staged r'.staged
 
 structure StRel (st st' : LexState N) : Prop where
-  src : RCA st.src st'.src
-  rest : RCA st.rest st'.rest
+  src : RC st.src st'.src
+  rest : RC st.rest st'.rest
   pos : st'.pos = st.pos
   line : st'.line = st.line
   lineStart : st'.lineStart = st.lineStart
@@ -764,21 +690,21 @@ theorem LRel.imp {R S : α → α' → Prop} {x : L α} {x' : L α'} (h : LRel R
 end
 
 theorem StRel.ulen {st st' : LexState N} (h : StRel st st') : ulen st'.src = ulen st.src :=
-  h.src.rc.ulen
+  h.src.ulen
 
 /-! ## the scanners -/
 
 theorem sub_rel {st st' : LexState N} (h : StRel st st') (lo hi : Nat) :
     LRel RC (sub st lo hi) (sub st' lo hi) := by
   unfold sub
-  have := substr_rc h.src.rc lo hi
+  have := substr_rc h.src lo hi
   revert this
   cases substr st.src lo hi <;> cases substr st'.src lo hi <;> simp [ORel, LRel]
 
 theorem sub_end_rel {st st' : LexState N} (h : StRel st st') (lo : Nat) :
-    LRel RCA (sub st lo (ulen st.src)) (sub st' lo (ulen st'.src)) := by
+    LRel RC (sub st lo (ulen st.src)) (sub st' lo (ulen st'.src)) := by
   unfold sub
-  have := substr_to_end_rca h.src lo
+  have := substr_to_end_rc h.src lo
   revert this
   cases substr st.src lo (ulen st.src) <;> cases substr st'.src lo (ulen st'.src) <;>
     simp [ORel, LRel]
@@ -790,7 +716,7 @@ theorem makeLoc_eq {st st' : LexState N} (h : StRel st st') (o : Nat) :
 theorem makeRange_eq {st st' : LexState N} (h : StRel st st') (a b : Nat) :
     makeRange st' a b = makeRange st a b := by
   unfold makeRange
-  have := (substr_rc h.src.rc a b).isSome
+  have := (substr_rc h.src a b).isSome
   rw [makeLoc_eq h, makeLoc_eq h]
   revert this
   cases substr st.src a b <;> cases substr st'.src a b <;> simp
@@ -820,43 +746,41 @@ theorem findNextWordEnd_eq {st st' : LexState N} (h : StRel st st') :
     findNextWordEnd st' = findNextWordEnd st := by
   unfold findNextWordEnd
   rw [h.ulen, h.pos]
-  exact findNextIndex_rc (fun c c' hc => hc.wordEnd laws) h.rest.rc _ _
+  exact findNextIndex_rc (fun c c' hc => hc.wordEnd laws) h.rest _ _
 
 /-- results of `find_word_start` -/
 def FRel (a a' : Nat × Char × List Char × Nat) : Prop :=
-  a'.1 = a.1 ∧ CaseRel a.2.1 a'.2.1 ∧ RCA a.2.2.1 a'.2.2.1 ∧ a'.2.2.2 = a.2.2.2
+  a'.1 = a.1 ∧ CaseRel a.2.1 a'.2.1 ∧ RC a.2.2.1 a'.2.2.1 ∧ a'.2.2.2 = a.2.2.2
 
-theorem findNonWs_rel {rest rest' : Str} (h : RCA rest rest') (pos : Nat) :
+theorem findNonWs_rel {rest rest' : Str} (h : RC rest rest') (pos : Nat) :
     ORel FRel (findNonWs rest pos) (findNonWs rest' pos) := by
   induction h generalizing pos with
   | nil => trivial
-  | cons hc _ t ih =>
+  | cons hc t ih =>
     simp only [findNonWs, hc.ignWs laws, hc.utf8Size]
     split
     · exact ih _
     · exact ⟨rfl, hc, t, rfl⟩
 
-theorem findWordStart_rel {rest rest' : Str} (h : RCA rest rest') (pos : Nat) :
+theorem findWordStart_rel {rest rest' : Str} (h : RC rest rest') (pos : Nat) :
     ORel FRel (findWordStart rest pos) (findWordStart rest' pos) := by
-  unfold findWordStart
-  rw [startsWithNApos_eq, startsWithNApos_eq, h.heads]
+  unfold findWordStart startsWithNApos
+  rw [startsWithIgnoreAsciiCase_rc _ h]
   split
   · cases h with
     | nil => trivial
-    | cons hc _ t => exact ⟨rfl, hc, t, by simp only [hc.utf8Size]⟩
+    | cons hc t => exact ⟨rfl, hc, t, by simp only [hc.utf8Size]⟩
   · exact findNonWs_rel laws h pos
 
 omit laws in
-/-- `scan_for_text` for a text the two sources have at the same places -/
+/-- `scan_for_text`: the literal is matched up to ASCII case in both sources -/
 theorem scanForText_rel {st st' : LexState N} (h : StRel st st') (start : Nat) (text : Str)
-    (kind : TK)
-    (ht : ∀ t t', RCA t t' → (stripPrefix? text t').isSome = (stripPrefix? text t).isSome) :
+    (kind : TK) :
     LRel (ORel ResRel) (scanForText st start text kind) (scanForText st' start text kind) := by
   unfold scanForText
   refine LRel.bind (sub_end_rel h start) fun buf buf' hb => ?_
-  have := ht buf buf' hb
-  revert this
-  cases stripPrefix? text buf <;> cases stripPrefix? text buf' <;> simp
+  rw [startsWithIgnoreAsciiCase_rc text hb]
+  cases startsWithIgnoreAsciiCase text buf
   · trivial
   · refine LRel.bind (makeTokenFrom_rel h _ _ _ _) fun tok tok' htok => ?_
     exact ⟨htok, rfl, rfl, rfl, trivial⟩
@@ -865,16 +789,15 @@ omit laws in
 theorem scanApostropheNApostrophe_rel {st st' : LexState N} (h : StRel st st') (start : Nat) :
     LRel (ORel ResRel) (scanApostropheNApostrophe st start)
       (scanApostropheNApostrophe st' start) :=
-  scanForText_rel h start _ _ fun t t' ht => congrArg (·.1) ht.heads
+  scanForText_rel h start _ _
 
 omit laws in
 theorem scanApostropheSuffix_rel {st st' : LexState N} (h : StRel st st') (start : Nat) :
     LRel (ORel ResRel) (scanApostropheSuffix st start) (scanApostropheSuffix st' start) := by
   unfold scanApostropheSuffix
-  refine LRel.bind (scanForText_rel h start _ _ fun t t' ht => congrArg (·.2.1) ht.heads)
-    fun r r' hr => ?_
+  refine LRel.bind (scanForText_rel h start _ _) fun r r' hr => ?_
   cases r <;> cases r' <;> simp only [ORel] at hr
-  · exact scanForText_rel h start _ _ fun t t' ht => congrArg (·.2.2) ht.heads
+  · exact scanForText_rel h start _ _
   · exact hr
 
 omit laws in
@@ -903,7 +826,7 @@ theorem scanNumber_rel [NumOps N]
       = findNextIndex (fun c => !(isAsciiAlnum c || c == '.')) (ulen st.src) st.rest st.pos := by
     rw [h.ulen, h.pos]
     exact findNextIndex_rc (fun c c' hc => by simp only [hc.alnum, hc.beq (x := '.') (by decide)])
-      h.rest.rc _ _
+      h.rest _ _
   simp only [hstop]
   refine LRel.bind (sub_rel h _ _) fun text text' htext => ?_
   rw [hparse _ _ htext]
@@ -1007,7 +930,7 @@ theorem scanDelimited_rel {st st' : LexState N} (h : StRel st st') (openIdx : Na
   unfold scanDelimited
   rw [makeLoc_eq h]
   refine LRel.bind_same fun startLoc => ?_
-  rw [scanClose_rc hclose h.rest.rc, h.pos]
+  rw [scanClose_rc hclose h.rest, h.pos]
   rcases scanClose closeChar st.rest st.pos 0 none with ⟨newlines, newLineStart, close⟩
   simp only
   have hmid : LRel (fun (x x' : TK × Str × Option LexErr × Str × Nat) =>
@@ -1094,7 +1017,7 @@ theorem nextChar_eq {st st' : LexState N} (h : StRel st st') {x : Char} (hx : ¬
   intro hr
   cases hr with
   | nil => rfl
-  | cons hc _ _ =>
+  | cons hc _ =>
     simp only [List.head?_cons, Option.some.injEq]
     exact propext (hc.eq_iff hx)
 
@@ -1201,15 +1124,15 @@ theorem dispatch_rel (kw : List (Str × TK)) {st st' : LexState N} (h : StRel st
   · exact hr
 
 omit laws hparse in
-theorem advanceTo_rca (idx : Nat) {rest rest' : Str} (h : RCA rest rest') (pos : Nat) :
-    RCA (advanceTo idx rest pos).1 (advanceTo idx rest' pos).1 ∧
+theorem advanceTo_rc (idx : Nat) {rest rest' : Str} (h : RC rest rest') (pos : Nat) :
+    RC (advanceTo idx rest pos).1 (advanceTo idx rest' pos).1 ∧
       (advanceTo idx rest' pos).2 = (advanceTo idx rest pos).2 := by
   induction h generalizing pos with
   | nil => exact ⟨.nil, rfl⟩
-  | cons hc hh t ih =>
+  | cons hc t ih =>
     simp only [advanceTo, hc.utf8Size]
     split
-    · exact ⟨.cons hc hh t, rfl⟩
+    · exact ⟨.cons hc t, rfl⟩
     · exact ih _
 
 /-- results of one round -/
@@ -1223,9 +1146,9 @@ omit laws hparse in
 theorem finish_rel {st st' : LexState N} (h : StRel st st') {r r' : LexResult N}
     (hr : ResRel r r') : LRel StepRel (finish st r) (finish st' r') := by
   unfold finish
-  rw [hr.stop, isCharBoundary_rc h.src.rc, h.pos]
+  rw [hr.stop, isCharBoundary_rc h.src, h.pos]
   split
-  · obtain ⟨a1, a2⟩ := advanceTo_rca r.stop h.rest st.pos
+  · obtain ⟨a1, a2⟩ := advanceTo_rc r.stop h.rest st.pos
     exact ⟨hr.token, h.src, a1, a2, by simp only [h.line, hr.newlines],
       by simp only [h.lineStart, hr.newLineStart], hr.staged⟩
   · rfl
@@ -1349,7 +1272,7 @@ theorem snap_eq {st st' : LexState N} (h : StRel st st') : snap st' = snap st :=
     intro hr
     cases hr with
     | nil => simp only [h.ulen]
-    | cons _ _ _ => simp only [h.pos]
+    | cons _ _ => simp only [h.pos]
   · exact hsg.elim
   · exact hsg.elim
   · intro _; simp only [hsg.start]
@@ -1379,9 +1302,9 @@ theorem lexLoop_rel (kw : List (Str × TK)) :
     · trivial
     · trivial
 
-/-- **the lexer commutes with re-casing**: on two texts related by `RCA` the lexer ends the same
+/-- **the lexer commutes with re-casing**: on two texts related by `RC` the lexer ends the same
     way, and the token lists are related token by token -/
-theorem lexAll_rel (kw : List (Str × TK)) {s s' : Str} (h : RCA s s') :
+theorem lexAll_rel (kw : List (Str × TK)) {s s' : Str} (h : RC s s') :
     LRel (F2 TokRel) (lexAll (N := N) kw s) (lexAll (N := N) kw s') :=
   lexLoop_rel laws hparse kw _ rfl ⟨h, h, rfl, rfl, rfl, trivial⟩
 
